@@ -21,7 +21,7 @@ CHAIN_NOTE = "Trusted: the hand-written reference model sim/src/model/chain.rs (
 def chain(text):
     return ("chainsim", True, "DESIGN.md §3", text + " The whole chain runs real code (App, Router, WasmKeeper, BankKeeper, StakeKeeper, transactional overlay, ContractWrapper) under a seeded operation schedule with injected faults; every step is refined against the reference model. Seeded sampling: evidence, not proof.", CHAIN_NOTE)
 CHECKS.update({
- "C01": chain("Errors are injected at PRNG-chosen points of generated message trees and, for swept trees, at every single node (body and reply) and at every single module call the tree makes (bank transfers incl. attached funds, staking, custom, ibc, gov, stargate, module queries), each variant from the same restored snapshot; on Err the root store must be byte-identical to the pre-call snapshot, on Ok every modelled effect must be observable; execute_multi order and per-message responses are compared with the model."),
+ "C01": chain("Errors (and, rarely, crashes: a panic inside contract code that unwinds through the whole call) are injected at PRNG-chosen points of generated message trees and, for swept trees, at every single node (body and reply) and at every single module call the tree makes (bank transfers incl. attached funds, staking, custom, ibc, gov, stargate, module queries), each variant from the same restored snapshot; on Err the root store must be byte-identical to the pre-call snapshot, on Ok every modelled effect must be observable; execute_multi order and per-message responses are compared with the model."),
  "C02": chain("Failure sets over sub-message trees with all four reply_on modes, failures inside replies and failures caught at outer levels; final balances, registry and contract storage must equal the model whose sub-message execution restores a snapshot on failure; in-call reads and queries of later siblings are compared too."),
  "C03": chain("The out-of-band invocation trace (not rolled back) is compared record by record with the model's depth-first trace: reply count, position, dispatcher, id, payload, Ok/Err, events and data carried inside Reply."),
  "C04": chain("AppResponse events and data of every top-level call and the events/data inside every Reply are compared with the model's composition rules (entry-point event, wasm event, wasm-<type> events with contract address first, sub-message then reply events, dropped events of failed sub-messages, last-reply-data rule, execute/instantiate envelopes)."),
